@@ -362,6 +362,8 @@ class Check:
     def finish(self, level='proof', checker_cmd=None, trusted=None, search=None):
         """search: callable(budget_factor) -> None, run when a proof / correspondence broke and no
         implementation-level failing input is known yet (it may call self.fail('impl', ...))."""
+        if getattr(self, 'replaying', False):          # ./check replay: collect only, write nothing
+            return 1 if self.violations else 0
         impl = [v for v in self.violations if v['kind'] == 'impl']
         broken = [v for v in self.violations if v['kind'] != 'impl']
         if self.proof is not None and not self.proof['ok']:
@@ -429,6 +431,29 @@ class Check:
                   assumptions=self.assumptions, wall_s=round(time.time() - self.t0, 2), violations=nviol)
         os.makedirs(os.path.join(VERIF, 'evidence'), exist_ok=True)
         json.dump(ev, open(os.path.join(VERIF, 'evidence', '%s.json' % self.pid), 'w'), indent=1, default=str)
+
+
+def replay_rerun(mod, body):
+    """Replay of a failure whose input is a generated file or history: the exploration that produced it is deterministic in
+    (seed, tier), so it is re-run with the recorded seed and tier against the current tree and the failures of the same oracle /
+    operation are reported. Exit 1 if it still fails, 0 if not."""
+    os.environ['VERIF_SEED'] = str(body.get('seed', 0))
+    chk = Check(body['property'], body.get('tier', 'quick'))
+    chk.replaying = True
+    r = body.get('replay', {}) or {}
+    key = (r.get('oracle'), r.get('op'))
+    mod.main(chk)
+    if body.get('kind') == 'proof':
+        bad = [] if (chk.proof is None or chk.proof['ok']) else chk.proof.get('failed_theorems', ['build'])
+        out('proof obligations that do not check now: %s' % (bad or 'none'))
+        return 1 if bad else 0
+    same = [v for v in chk.violations if v['kind'] == body.get('kind') and ((v['replay'] or {}).get('oracle'), (v['replay'] or {}).get('op')) == key]
+    out('recorded: ' + body.get('what', '')[:300])
+    for v in same[:5]:
+        out('still fails: ' + v['what'][:300])
+    if not same:
+        out('no longer fails (seed %s, tier %s, %d other failures of this property in the re-run)' % (body.get('seed'), body.get('tier'), len(chk.violations)))
+    return 1 if same else 0
 
 
 @contextlib.contextmanager
